@@ -117,6 +117,15 @@ def gen_cases(rng, n_seq, n_free):
     cases.append("C U d u seq 1 C74302e61,C74302e62,F/C74312e61,E74312e783a317c63/C7432 0+1+2,0+1,0")
     cases.append("C X 8 u seq 3 C74302e61,C74302e62,F/C74312e61,E74312e783a317c63/C7432 0+1,1+0,2+0")
     cases.append("C S 16 1 seq 1 C74302e61,C74302e62,F/C74312e61,E74312e783a317c63/C7432 0,1,2,0+1,1,0")
+    # back-pressure: a non-blocking Unix socket whose listener is not read while the threads run (WouldBlock once its
+    # queue is full); nothing may hang, framing and exactly-once hold for what arrives
+    for k in range(max(6, (n_seq + n_free) // 25)):
+        nth = rng.choice([2, 3])
+        cap = rng.choice([8, 16, 24])
+        progs = [gen_prog(rng, t, rng.choice([12, 20]), cap, "X") for t in range(nth)]
+        free = k % 2 == 0
+        cases.append("C N %d u %s %d %s %s" % (cap, "free" if free else "seq", rng.randrange(1 << 30),
+                                               "/".join(",".join(p) for p in progs), "-" if free else gen_plan(rng, progs)))
     for i in range(n_seq + n_free):
         free = i >= n_seq
         sink = rng.choice(["S", "S", "S", "U", "X"])
@@ -200,7 +209,7 @@ def clauses(case, o):
     """(iii) the property's clauses on the datagrams"""
     t = case.split()
     cap = 512 if t[2] == "d" else int(t[2])
-    faults = t[3] != "u"
+    faults = t[3] != "u" or t[1] == "N"
     bad = []
     for th, calls in enumerate(o["tlog"]):
         for m, r in calls:
@@ -374,6 +383,8 @@ def check_C12(tier, seed):
     common.kernel_crosscheck(rep, "conc", [mcases[i] for i in idx], 150 if thorough else 60)
     dis = []
     for i, mo in zip(idx, mout):
+        if cases[i].split()[1] == "N":
+            continue        # which sends the OS refuses is not the model's to predict: judged on the observation only
         faults = cases[i].split()[3] != "u"
         mv, _, left = mo.rpartition("|L:")
         if mv != model_view(obs[i], faults) or left != "0":
